@@ -3,13 +3,13 @@
 
 namespace PyGql.Generated.SchemaValidTables
 
-def validNamePattern : String := "^(?!__)[_a-zA-Z][_a-zA-Z0-9]*$"
+def validNamePattern : String := "^(?!__)[_a-zA-Z][_a-zA-Z0-9]*\\Z"
 /-- the negative look-ahead `(?!..)` -/
 def nameForbiddenPrefix : List Nat := [95, 95]
 def nameStart (c : Nat) : Bool := c == 95 || (97 ≤ c && c ≤ 122) || (65 ≤ c && c ≤ 90)
 def nameCont (c : Nat) : Bool := c == 95 || (97 ≤ c && c ≤ 122) || (65 ≤ c && c ≤ 90) || (48 ≤ c && c ≤ 57)
 /-- the pattern ends with `$` (which also matches before one trailing newline) instead of `\Z` -/
-def nameDollarQuirk : Bool := true
+def nameDollarQuirk : Bool := false
 
 /-- (rule id, format strings of its `add_error` call sites) -/
 def ruleFormats : List (String × List String) := [
@@ -32,6 +32,7 @@ def ruleFormats : List (String × List String) := [
   ("resNeedsDefault", ["Resolver parameter for optional argument \"%s\" on \"%s\" must have a default"]),
   ("resPositional", ["Resolver for \"%s\" must accept 3 positional parameters, found (%s)"]),
   ("resExtraRequired", ["Required resolver parameter \"%s\" on \"%s\" does not match any known argument or expected positional parameter"]),
+  ("notInterface", ["Type \"%s\" can only implement interface types but got \"%s\""]),
   ("dupInterface", ["Type \"%s\" mut only implement interface \"%s\" once"]),
   ("ifaceFieldMissing", ["Interface field \"%s\" is not implemented by type \"%s\""]),
   ("ifaceFieldType", ["Interface field \"%s\" expects type \"%s\" but \"%s\" is type \"%s\""]),
@@ -47,5 +48,5 @@ def ruleFormats : List (String × List String) := [
 ]
 
 /-- the proposed fix C13-S4-S6 is present in the working tree -/
-def fixS4S6 : Bool := false
+def fixS4S6 : Bool := true
 end PyGql.Generated.SchemaValidTables
